@@ -10,6 +10,7 @@ import LasModel.Driver.ScalD
 import LasModel.Driver.ConvD
 import LasModel.Driver.XdD
 import LasModel.Driver.StreamD
+import LasModel.Driver.CompD
 namespace LasModel.Driver
 
 def dispatch (line : String) : String :=
@@ -25,6 +26,7 @@ def dispatch (line : String) : String :=
   | "cv" :: rest => (ConvD.handle rest).getD "bad-op"
   | "xd" :: rest => (XdD.handle rest).getD "bad-op"
   | "st" :: rest => (StreamD.handle rest).getD "bad-op"
+  | "cz" :: rest => (CompD.handle rest).getD "bad-op"
   | _ => "bad-op"
 
 partial def loop (h : IO.FS.Stream) (out : IO.FS.Stream) : IO Unit := do
